@@ -81,6 +81,16 @@ def generate(rng: random.Random, tier: str):
         yield {"kind": "write", "wf": True, "store": "mem", "fmt": fmt, "pre": "fresh", "validate": True, "overwrite": False,
                "nids": {"dtype": "uint8", "shape": [0], "data": []}, "eids": {"dtype": "uint8", "shape": [0, 2], "data": []},
                "nprops": {"poly": {"values": {"vlen": []}, "missing": None}}, "eprops": {}, "md": {"directed": True}}
+    # one var-length property name shared by nodes and edges, different dtypes and shapes
+    for fmt in (2, 3):
+        for store in ("mem", "path"):
+            yield {"kind": "write", "wf": True, "store": store, "fmt": fmt, "pre": "fresh", "validate": True, "overwrite": False,
+                   "nids": {"dtype": "int64", "shape": [2], "data": [-1, 9223372036854775807]},
+                   "eids": {"dtype": "int64", "shape": [2, 2], "data": [-1, 9223372036854775807, 9223372036854775807, -1]},
+                   "nprops": {"feat": {"values": {"vlen": [{"dtype": "float64", "shape": [2], "data": [0.5, 1.5]}, {"dtype": "float64", "shape": [0], "data": []}]}, "missing": None}},
+                   "eprops": {"feat": {"values": {"vlen": [{"dtype": "int16", "shape": [1, 3], "data": [7, 8, 9]}, {"dtype": "int16", "shape": [2, 1], "data": [1, 2]}]},
+                                       "missing": {"dtype": "bool", "shape": [2], "data": [False, True]}}},
+                   "md": {"directed": True}}
     nrand = 500 if tier == "quick" else 6000
     for i in range(nrand):
         g = gg.rand_graph(rng)
